@@ -366,3 +366,56 @@ func VC07_DequeCloseCancel() {
 	vf.Quiesce()
 	vf.Assert(vf.Live() == 0, "helper-goroutine-left-behind")
 }
+
+// Several operations parked on the same queue with different contexts:
+// cancelling one of them releases that one, whoever parked first.
+func VC07_QueueCancelMulti() {
+	kind := vf.Choice("parked", 3)
+	which := vf.Choice("cancel-which", 2)
+	var ctxs [2]context.Context
+	var cancels [2]context.CancelFunc
+	for i := 0; i < 2; i++ {
+		ctxs[i], cancels[i] = context.WithCancel(context.Background())
+	}
+	var q *Queue[vc07item]
+	returned := make([]bool, 2)
+	errs := make([]error, 2)
+	switch kind {
+	case 0: // two producers blocked on a full queue
+		q = vc07bounded(1)
+		_ = q.Add(vc07item{ID: 100})
+		for i := 0; i < 2; i++ {
+			i := i
+			vf.Go(func() { errs[i] = q.BlockingAdd(ctxs[i], vc07item{ID: i + 1}); returned[i] = true })
+		}
+	case 1: // two consumers blocked on an empty queue
+		q = NewUnlimitedQueue[vc07item]()
+		for i := 0; i < 2; i++ {
+			i := i
+			vf.Go(func() { _, errs[i] = q.Wait(ctxs[i]); returned[i] = true })
+		}
+	case 2: // an iterator waiting at the end and a blocked producer
+		q = vc07bounded(1)
+		_ = q.Add(vc07item{ID: 100})
+		vf.Go(func() {
+			it := q.Iterator()
+			for it.Next(ctxs[0]) {
+			}
+			errs[0] = ctxs[0].Err()
+			returned[0] = true
+		})
+		vf.Go(func() { errs[1] = q.BlockingAdd(ctxs[1], vc07item{ID: 2}); returned[1] = true })
+	}
+	vf.Go(func() { cancels[which]() })
+	vf.Quiesce()
+	vf.Reach("quiescent")
+	vf.Assert(returned[which], "blocked-operation-not-woken-by-cancellation")
+	if returned[which] {
+		vf.Assert(errs[which] != nil, "cancelled-operation-reported-success")
+	}
+	vf.Assert(!returned[1-which], "operation-returned-although-nothing-happened-to-it")
+	cancels[1-which]()
+	vf.Quiesce()
+	vf.Assert(returned[1-which], "blocked-operation-not-woken-by-cancellation")
+	vf.Assert(vf.Live() == 0, "helper-goroutine-left-behind")
+}
